@@ -87,7 +87,26 @@ def real_select(messages, mods):
 
 
 VOCAB = ["", "LIS2", "HOST", "P", "E1394-97", "1", "20240617102144", "Lab 7", "an\xe9mie", "99^2.1", "XN", "XP", "c31", "H50",
-         "DCA", "mini", "SE-152", "Roche", "Afinion", "ABXY", "XLIS", "host^LIS2^", "\xb5\xff"]
+         "DCA", "mini", "SE-152", "Roche", "Afinion", "ABXY", "XLIS", "host^LIS2^", "\xb5\xff",
+         # control characters other than LF are ordinary field content (str.splitlines would cut at all of them)
+         "a\x0bb", "\x0c", "x\x1cy", "\x1d7", "id\x1e", "n\x85", "tab\there", "\r"[:0] + "nul\x00"]
+
+
+def hub_header(module, token=None):
+    """a header whose sender *name* is always "LabHub" (a middleware in front of several analysers) and which names
+    `module`'s model (None / "generic": no supported model) in a later component or field, in a shape that module's own
+    header schema accepts; None when that schema pins the sender (cobas c111, c311)"""
+    if module in (None, "generic"):
+        return "H|\\^&|||LabHub^gw^1.0|||||HOST||P|1|20240101120000"
+    spec = tokens()[module]
+    token = token or spec["tokens"][0]
+    if module in ("roche_cobas_c111", "roche_cobas_c311"):
+        return None
+    if spec["behind"] == "|":
+        return "H|\\^&|||LabHub|||||%s||P|1|20240101120000" % token
+    if token.endswith("^"):
+        return "H|\\^&|||LabHub^%s1.0|||||HOST||P|1|20240101120000" % token
+    return "H|\\^&|||LabHub^x^%s^1.0|||||HOST||P|1|20240101120000" % token
 
 
 def header(r, token_spec=None, token=None, near=None):
